@@ -70,3 +70,101 @@ def register(reg):
         ],
         properties=["C01", "C07", "C08"], modular=False, name="generate_block_parts#A_updates", bounded="rank <= 2",
         mutants=[("body.append(L.AssignAdd(A[multi_index], expression))", "body.append(L.Assign(A[multi_index], expression))")]))
+
+
+def register_expression(reg):
+    EG = "ffcx/codegeneration/expression_generator.py::ExpressionGenerator.generate_block_parts"
+
+    def mk(interp, name):
+        rank = interp.ctx.decide(2, "block_rank")  # 0 or 1 arguments
+        bms, idxs = [], []
+        for i in range(rank):
+            n = [1, 2, 4][interp.ctx.decide(3, f"len(blockmap[{i}])")]
+            o = SV(z3.Int(f"first_dof{i}"), "int")
+            s = SV(z3.Int(f"stride{i}"), "int")
+            interp.ctx.assume(z3.And(o.z >= 0, s.z >= 1))
+            bms.append(tuple(SV(z3.simplify(o.z + k * s.z), "int") for k in range(n)))
+            idxs.append(L.Symbol("ijkl"[i], L.DataType.INT))
+        return types.SimpleNamespace(blockmap=tuple(bms), arg_indices=tuple(idxs), iq=L.Symbol("iq", L.DataType.INT))
+
+    frag = fragment(EG, "A_indices = []", last="A_indices = tuple([iq] + A_indices)", params=["blockmap", "arg_indices", "iq"],
+                    returns="A_indices", name="ExpressionGenerator.generate_block_parts#A_indices")
+    reg.add(Contract(
+        EG, dict(case=Custom(mk)), fn=frag, call=["case.blockmap", "case.arg_indices", "case.iq"],
+        ensures=[
+            "len(result) == 1 + len(case.blockmap) and result[0] is case.iq",
+            # argument dof index: blockmap[r][i] for equally spaced dofs (bm[0] + (bm[1]-bm[0]) * i)
+            "all([ev(result[r + 1], env) == case.blockmap[r][0] + ((case.blockmap[r][1] - case.blockmap[r][0]) if len(case.blockmap[r]) > 1 else 1)"
+            " * env.sym(case.arg_indices[r].name) for r in range(len(case.blockmap))])",
+        ],
+        properties=["C04", "C08"], modular=False, name="ExpressionGenerator.generate_block_parts#A_indices", bounded="rank <= 1",
+        mutants=[("A_indices.append(block_size * index + offset)", "A_indices.append(block_size * (index + offset))")]))
+
+    # A[point][component][dof]: the flat index
+    def mk2(interp, name):
+        rank = interp.ctx.decide(2, "rank")
+        shape = [SV(z3.Int(n_), "int") for n_ in ["num_points", "components"] + ["dim0"][:rank]]
+        for s in shape:
+            interp.ctx.assume(s.z >= 1)
+        A_indices = tuple([L.Symbol("iq", L.DataType.INT)] + [S.lexpr(interp, f"dof{i}") for i in range(rank)])
+        comp = SV(z3.Int("component"), "int")
+        interp.ctx.assume(comp.z >= 0)
+        f = L.Symbol("sv_0", L.DataType.SCALAR)
+        Fg = types.SimpleNamespace(nodes={0: {"expression": "v0"}})
+        slf = types.SimpleNamespace(get_var=lambda v: f)
+        bd = types.SimpleNamespace(factor_indices_comp_indices=[(0, comp)])
+        return types.SimpleNamespace(A_indices=A_indices, A_shape=shape, comp=comp, f=f, F=Fg, self=slf, blockdata=bd,
+                                     arg_factors=[L.Symbol("FE0", L.DataType.REAL)[L.Symbol("i", L.DataType.INT)]][:rank],
+                                     A=L.Symbol("A", L.DataType.SCALAR))
+
+    frag2 = fragment(EG, "body = []", last="for fi_ci in blockdata.factor_indices_comp_indices:",
+                     params=["blockdata", "self", "F", "arg_factors", "A_indices", "A_shape", "A"], returns="body",
+                     name="ExpressionGenerator.generate_block_parts#A_updates")
+    reg.add(Contract(
+        EG, dict(case=Custom(mk2)), fn=frag2,
+        call=["case.blockdata", "case.self", "case.F", "case.arg_factors", "case.A_indices", "case.A_shape", "case.A"],
+        ensures=[
+            "len(result) == 1 and isinstance(result[0], L.AssignAdd) and is_access(result[0].lhs, 'A', 1)",
+            # ufcx.h: A[num_points][num_components][num_argument_dofs]
+            "ev(idx(result[0].lhs, 0), env) == flat([env.sym('iq'), case.comp] + [ev(d, env) for d in case.A_indices[1:]], case.A_shape)",
+        ],
+        properties=["C04", "C07", "C08"], modular=False, name="ExpressionGenerator.generate_block_parts#A_updates", bounded="rank <= 1",
+        mutants=[("indices = [A_indices[0], fi_ci[1]] + list(A_indices[1:])", "indices = [fi_ci[1], A_indices[0]] + list(A_indices[1:])")]))
+
+
+def register_scopes(reg):
+    """IntegralGenerator.get_var / set_var: the rule scope is consulted first, the rule-independent scope only as a fallback
+    (C11, C01)."""
+    import ffcx.codegeneration.integral_generator as IGm
+
+    class _V:
+        _ufl_is_literal_ = False
+
+        def __repr__(self):
+            return "<ufl expr v>"
+
+    V = _V()
+    R1, R2 = ("cell", "rule1"), ("cell", "rule2")
+    A1, A2, AP = (L.Symbol(n, L.DataType.SCALAR) for n in ("sv_r1_0", "sv_r2_0", "sp_0"))
+
+    def mk_self(interp, name):
+        scopes = {R1: {}, R2: {}, (None, None): {}}
+        present = []
+        for key, acc in ((R1, A1), (R2, A2), ((None, None), AP)):
+            if interp.ctx.decide(2, f"v in scope {key}") == 1:
+                scopes[key][V] = acc
+                present.append(key)
+        interp.ctx.ghost["present"] = present
+        return types.SimpleNamespace(scopes=scopes)
+
+    reg.add(Contract(
+        "ffcx/codegeneration/integral_generator.py::IntegralGenerator.get_var",
+        dict(self=Custom(mk_self), quadrature_rule=Enum("rule1", "rule2"), domain=Const("cell"), v=Const(V)),
+        ghost_names=["present"],
+        ensures=[
+            "implies((domain, quadrature_rule) in ghost('present'), result is self.scopes[(domain, quadrature_rule)][v])",
+            "implies((domain, quadrature_rule) not in ghost('present') and (None, None) in ghost('present'), result is self.scopes[(None, None)][v])",
+            "implies((domain, quadrature_rule) not in ghost('present') and (None, None) not in ghost('present'), result is None)",
+        ],
+        properties=["C11", "C01"], modular=False, name="IntegralGenerator.get_var",
+        mutants=[('f = self.scopes[(None, None)].get(v)', 'f = self.scopes[(domain, "rule1")].get(v)')]))
